@@ -15,3 +15,11 @@ claim('C12', 'Lean 4 decision-logic proofs (accept iff constraint holds, exact e
       'emits the documented value; a whole statement is assembled iff every constraint holds, otherwise rejected. Each run '
       'drives the real CLI with values on and adjacent to every boundary and compares with the model.',
       NOTE + ' Operand text -> constraint kind mapping is produced by the generator.')
+
+claim('C07', 'Lean 4 proofs (recursive-descent parser = stratified grammar, exact-rational evaluation, byte extraction, literal notations) + differential correspondence',
+      'Kernel-checked theorems: the five-level parser is sound and complete for the stratified left-associative grammar (hence '
+      'unambiguous, malformed token lists rejected, fuel never exhausted, every tree re-read from its minimal-parenthesis print); '
+      'evaluation is exact rational arithmetic with floored %, power-of-two shifts, two\'s-complement bitwise operators and final '
+      'truncation toward zero; BYTEn = two\'s-complement byte n; every literal notation denotes its value. Each run compares the '
+      'real CLI with the model on grammar-generated, malformed and corner-case expression texts.',
+      NOTE + ' The tokeniser regex is modelled by a hand-written scanner (validated, not verified).')
